@@ -1,6 +1,6 @@
 (* E7 Dfir -- executable verdicts evaluated by the correspondence check (definitions only). *)
 From Coq Require Import List NArith Bool Arith.
-From HV Require Import Dfir.Model Dfir.ModelTick Dfir.ModelFlat.
+From HV Require Import Dfir.Model Dfir.ModelTick Dfir.ModelFlat Dfir.ModelRefs.
 Import ListNotations.
 Open Scope N_scope.
 
@@ -207,3 +207,46 @@ Definition c25_chk (avail : bool) (p : prog) (d : c25_desc) (ordered : list bool
            | None => impl_panic
            | Some e => negb impl_panic && outs_eqb ordered impl_outs e
            end).
+
+(* ------------------------------------------------------------------ guard *)
+(* bit0 is also raised when a model-side applicability condition fails *)
+Definition vand (b : bool) (v : N) : N := if b then v else N.lor v 1.
+
+(* ------------------------------------------------------------------ C26: lazy loop delays *)
+
+(* the iteration batches of a loop-delayed (non-lazy) cycle: items, f items, f (f items), ... *)
+Fixpoint batches (fuel : nat) (f : val -> option val) (items : list val) : list (list val) :=
+  match fuel with
+  | O => []
+  | S n => match items with
+           | [] => []
+           | _ => items :: batches n f (filter_map_l f items)
+           end
+  end.
+
+(* nested loop whose only cycle goes through defer_tick_lazy: one iteration per firing; what it
+   defers waits -- over idle ticks too -- for the next firing.  One sink: the per-iteration tap *)
+Fixpoint nested_lazy_expect (f : val -> option val) (pending : list val) (ins : list (list val))
+  : list (list (list val)) :=
+  match ins with
+  | [] => []
+  | i :: r => match i with
+              | [] => [[]] :: nested_lazy_expect f pending r
+              | _ => let m := i ++ pending in [m] :: nested_lazy_expect f (filter_map_l f m) r
+              end
+  end.
+
+(* nested loop iterating through a non-lazy defer_tick cycle, with a defer_tick_lazy branch off the
+   per-iteration tap: sink 0 = every iteration's batch; sink 1 = what the lazy defer delivers: in
+   iteration k+1 the batch of iteration k, and in the first iteration of a firing the last batch of
+   the previous firing (however many idle ticks lie in between) *)
+Fixpoint lazy_cycle_expect (f : val -> option val) (pending : list val) (ins : list (list val))
+  : list (list (list val)) :=
+  match ins with
+  | [] => []
+  | i :: r => match i with
+              | [] => [[]; []] :: lazy_cycle_expect f pending r
+              | _ => let bs := batches 64 f i in
+                     [concat bs; pending ++ concat (removelast bs)] :: lazy_cycle_expect f (last bs []) r
+              end
+  end.
